@@ -448,13 +448,18 @@ class Assembler:
                 self._replace_symbol_referents(
                     symbol_index, extra_block, main_block
                 )
-                self._replace_cfi_referents(cfi_index, extra_block, main_block)
 
                 if extra_block in section.alignment:
                     max_alignment = max(
                         max_alignment, section.alignment[extra_block]
                     )
                     del section.alignment[extra_block]
+
+            # Each replacement puts the extra block's CFI instructions in
+            # front of the main block's, so go from the last extra block to
+            # the first to keep them in the order they were written.
+            for extra_block in reversed(extra_blocks):
+                self._replace_cfi_referents(cfi_index, extra_block, main_block)
 
             if max_alignment:
                 section.alignment[main_block] = max_alignment
